@@ -19,7 +19,8 @@ pub enum Case {
     Nonce { seed: u64, counter: u64 },
 }
 #[derive(Clone, Debug, Serialize, Deserialize)]
-pub enum UCoord { Random(u64), RandomHighBit(u64), LowOrder(usize), NonCanonical(u8), Base }
+pub enum UCoord { Random(u64), RandomHighBit(u64), LowOrder(usize), NonCanonical(u8), Base, /// i-th entry of the well-known 12-entry list (0, 1, x1, x2, p-1, p, p+1, p+x1, p+x2, 2p-1, 2p, 2p+1 as 256-bit strings)
+    Published(usize) }
 /// Scalars at the extremes: all-zero, all-ones, only clamped bits set, single bits.
 pub fn special_scalar(i: usize) -> [u8; 32] { let mut k = [0u8; 32]; match i { 0 => {}, 1 => k = [0xff; 32], 2 => { k[0] = 7; k[31] = 0x80; }, 3 => k[31] = 0x40, 4 => k[0] = 8, 5 => { k = [0xff; 32]; k[0] = 0xf8; k[31] = 0x7f; }, _ => k[i % 32] = 1 << (i % 8) } k }
 
@@ -31,6 +32,7 @@ fn ucoord(u: &UCoord) -> [u8; 32] {
         // p+k for small k and 2^255-1 .. : non-canonical but full-order for most k; result is whatever RFC 7748 says
         UCoord::NonCanonical(k) => { let mut x = [0xffu8; 32]; x[31] = 0x7f; let v = 0xedu16 + (*k % 19) as u16; x[0] = v as u8; if v > 0xff { x[0] = 0xff; } x }
         UCoord::Base => { let mut x = [0u8; 32]; x[0] = 9; x }
+        UCoord::Published(i) => { let h = ["0000000000000000000000000000000000000000000000000000000000000000", "0100000000000000000000000000000000000000000000000000000000000000", "e0eb7a7c3b41b8ae1656e3faf19fc46ada098deb9c32b1fd866205165f49b800", "5f9c95bca3508c24b1d0b1559c83ef5b04445cc4581c8e86d8224eddd09f1157", "ecffffffffffffffffffffffffffffffffffffffffffffffffffffffffffff7f", "edffffffffffffffffffffffffffffffffffffffffffffffffffffffffffff7f", "eeffffffffffffffffffffffffffffffffffffffffffffffffffffffffffff7f", "cdeb7a7c3b41b8ae1656e3faf19fc46ada098deb9c32b1fd866205165f49b880", "4c9c95bca3508c24b1d0b1559c83ef5b04445cc4581c8e86d8224eddd09f11d7", "d9ffffffffffffffffffffffffffffffffffffffffffffffffffffffffffffff", "daffffffffffffffffffffffffffffffffffffffffffffffffffffffffffffff", "dbffffffffffffffffffffffffffffffffffffffffffffffffffffffffffffff"]; kspec::unhex(h[i % 12]).try_into().unwrap() }
     }
 }
 
@@ -69,7 +71,7 @@ pub fn check(c: &Case) -> CheckResult {
             ensure!(pk[..] == kspec::x25519_base(&sk)[..], "public-key derivation differs from scalar multiplication of the base point");
             let prk = kc::PrivateKey::try_from(&sk[..]).unwrap();
             ensure!(prk.to_public().map(|p| p.as_bytes().to_vec()).ok() == Some(pk.clone()), "PrivateKey::to_public differs from x25519_derive_public");
-            ok(true, format!("x25519/{}", match u { UCoord::Random(_) => "random", UCoord::RandomHighBit(_) => "highbit", UCoord::LowOrder(_) => "low-order", UCoord::NonCanonical(_) => "non-canonical", UCoord::Base => "base" }))
+            ok(true, format!("x25519/{}", match u { UCoord::Random(_) => "random", UCoord::RandomHighBit(_) => "highbit", UCoord::LowOrder(_) => "low-order", UCoord::NonCanonical(_) => "non-canonical", UCoord::Base => "base", UCoord::Published(_) => "published-list" }))
         }
         Case::SpecialScalar { i, u } => {
             let sk = special_scalar(*i); let uu = ucoord(u); let want = kspec::x25519(&sk, &uu);
@@ -128,6 +130,7 @@ pub fn run(ctx: &Ctx) {
     ctx.sse("hmac_key_lengths", "key length 0..=200 x data length {0,1,63,64,65,500}", 201 * 6, |i| Case::Hmac { seed: ctx.seed ^ i as u64, klen: i / 6, dlen: [0, 1, 63, 64, 65, 500][i % 6] }, check);
     let nlow = gen::low_order_points().len();
     ctx.sse("x25519_special_points", "14 small-order spellings + 19 non-canonical + base x 8 clamp-noise patterns", (nlow + 20) * 8, |i| { let j = i / 8; Case::X25519 { k: ctx.seed.wrapping_add(i as u64), u: if j < nlow { UCoord::LowOrder(j) } else if j < nlow + 19 { UCoord::NonCanonical((j - nlow) as u8) } else { UCoord::Base }, clamp_noise: (i % 8) as u8 } }, check);
+    ctx.sse("x25519_published_list", "the 12 published encodings x 8 clamp-noise patterns: error exactly when RFC 7748 (bit 255 masked) gives zero", 12 * 8, |i| Case::X25519 { k: ctx.seed.wrapping_add(1000 + i as u64), u: UCoord::Published(i / 8), clamp_noise: (i % 8) as u8 }, check);
     ctx.sse("x25519_special_scalars", "40 extreme scalars (all-zero, all-ones, only clamped bits, single bits) x {base, random, high-bit u}: raw functions and key objects", 40 * 3, |i| Case::SpecialScalar { i: i / 3, u: match i % 3 { 0 => UCoord::Base, 1 => UCoord::Random(i as u64), _ => UCoord::RandomHighBit(i as u64) } }, check);
     ctx.pbt("pbt_primitives", ctx.n(400_000, 4_000_000), || prop_oneof![
         3 => (any::<u64>(), prop_oneof![4 => 0usize..400, 1 => 0usize..70_000], 0usize..80).prop_map(|(seed, mlen, alen)| Case::Aead { seed, mlen, alen, tamper: false }),
